@@ -385,3 +385,21 @@ func cmdMulti(args []string) {
 	tw.close()
 	fmt.Printf("played %d concurrent schedules, %d trace lines\n", n, tw.lines)
 }
+
+// decode: raw connection recordings (verifConn) -> abstract PgFlow trace.
+func init() {
+	extraCmds["decode"] = func(args []string) {
+		fs := flag.NewFlagSet("decode", flag.ExitOnError)
+		dir := fs.String("dir", "", "directory with conn-*.ndjson recordings")
+		out := fs.String("out", "trace.ndjson", "trace file")
+		fs.Parse(args) //nolint
+		evs, n, err := run.DecodeFlowDir(*dir)
+		if err != nil {
+			die("decode: %v", err)
+		}
+		if err := run.WriteFlowTrace(evs, *out); err != nil {
+			die("decode: %v", err)
+		}
+		fmt.Printf("decoded %d connections, %d events\n", n, len(evs))
+	}
+}
